@@ -15,10 +15,7 @@ structure PM where
   ps : PatchesState
 
 /-- `load_patches_state(..).unwrap_or_default()` -/
-def loadPatchesState (d : Disk) : PatchesState :=
-  match d.patchesJson with
-  | .ok v => v
-  | _ => {}
+def loadPatchesState (d : Disk) : PatchesState := d.patchesJson.getD {}
 
 /-- `PatchManager::new` -/
 def PM.new (d : Disk) : PM := { disk := d, ps := loadPatchesState d }
